@@ -255,6 +255,20 @@ ENUM_VARIANTS = {
 }
 
 
+class AbsSet:
+    """an interval set abstracted to its membership formula at the query point (engine M composition lemmas)"""
+    __slots__ = ("mem",)
+
+    def __init__(self, mem):
+        self.mem = mem
+
+    def __repr__(self):
+        return "AbsSet(%s)" % self.mem
+
+
+SET_MEM = [None]  # hook: function(value) -> membership term of a concrete Intervals value at the query point
+
+
 class Bot:
     """value read on an infeasible path (payload of an enum variant that was never constructed): absorbs in merges"""
 
@@ -287,6 +301,10 @@ def merge(c, a, b):
         return En(a.name, ite(c, a.disc, b.disc), vs)
     if isinstance(a, Opaque) and isinstance(b, Opaque):
         return a
+    if isinstance(a, AbsSet) or isinstance(b, AbsSet):
+        ma = a.mem if isinstance(a, AbsSet) else SET_MEM[0](a)
+        mb = b.mem if isinstance(b, AbsSet) else SET_MEM[0](b)
+        return AbsSet(ite(c, ma, mb))
     if isinstance(a, Seq) and isinstance(b, Seq):
         if len(a.items) == len(b.items):
             return Seq([(ite(c, ga, gb), merge(c, va, vb)) for (ga, va), (gb, vb) in zip(a.items, b.items)])
@@ -399,7 +417,28 @@ class Enc:
                 return (q if op == "Div" else r), p
             raise NotTranslatable("int op %s in math mode" % op)
 
+    @staticmethod
+    def _lit(t):
+        m = re.fullmatch(r"-?\d+", t)
+        if m:
+            return int(t)
+        m = re.fullmatch(r"\(- (\d+)\)", t)
+        if m:
+            return -int(m.group(1))
+        m = re.fullmatch(r"\(_ bv(\d+) (\d+)\)", t)
+        if m:
+            return ("bv", int(m.group(1)), int(m.group(2)))
+        return None
+
     def icmp(self, op, ty, a, b):
+        la, lb = self._lit(a), self._lit(b)
+        if la is not None and lb is not None and ty != "bool":
+            if isinstance(la, tuple):
+                w = la[2]
+                sg = lambda u: u - (1 << w) if (is_signed(ty) and u >> (w - 1)) else u
+                la, lb = sg(la[1]), sg(lb[1])
+            r = {"Eq": la == lb, "Ne": la != lb, "Lt": la < lb, "Le": la <= lb, "Gt": la > lb, "Ge": la >= lb}[op]
+            return "true" if r else "false"
         if ty == "bool":
             if op == "Eq":
                 return "(= %s %s)" % (a, b)
@@ -590,6 +629,14 @@ class Translator:
         m = re.fullmatch(r"\(\*(.+)\)", p)
         if m:
             return self.place(st, m.group(1))  # references are erased
+        m = re.fullmatch(r"(.+)\[(\d+) of (\d+)\]", p)
+        if m:
+            b = self.place(st, m.group(1))
+            if isinstance(b, Bot):
+                return b
+            if isinstance(b, Tup) and len(b.items) == int(m.group(3)):
+                return b.items[int(m.group(2))]
+            raise NotTranslatable("constant index on %r" % (b,))
         # field projection (BASE.k: T) possibly with downcast (BASE as Variant)
         if p.startswith("(") and p.endswith(")"):
             inner = p[1:-1]
@@ -1147,11 +1194,15 @@ class Translator:
                 else:
                     arms.append((int(k), tgt.strip()))
             res = None
+            conds = [(k, tgt, self.switch_cond(v, k)) for k, tgt in arms]
+            for k, tgt, c in conds:
+                if c == "true":  # decided branch: the others are infeasible
+                    return self.run_block(fn, tgt, st, depth, onpath)
+            conds = [(k, tgt, c) for k, tgt, c in conds if c != "false"]
             # build from the otherwise arm backwards
             if other is not None:
                 res = self.run_block(fn, other, st, depth, onpath)
-            for k, tgt in reversed(arms):
-                c = self.switch_cond(v, k)
+            for k, tgt, c in reversed(conds):
                 r = self.run_block(fn, tgt, st, depth, onpath)
                 if res is None:
                     res = r
@@ -1201,10 +1252,13 @@ class Translator:
     def switch_cond(self, v, k):
         e = self.enc
         if isinstance(v, _Disc):
+            l = e._lit(v.t)
+            if isinstance(l, int):
+                return "true" if l == k else "false"
             return "(= %s %s)" % (v.t, int_lit(k))
         if v.ty == "bool":
             return v.t if k else lnot(v.t)
-        return "(= %s %s)" % (v.t, e.int_const(v.ty, k))
+        return e.icmp("Eq", v.ty, v.t, e.int_const(v.ty, k))
 
 
 class LazyEnv:
